@@ -12,11 +12,12 @@ numpy: every returned atom is a parent + integer cell vectors with the parent's 
 ellipsoid about a returned atom, no site twice, every site of the returned cell inside the ellipsoid is
 present (input atoms in [0,1)^3), sphere = ellipsoid with equal radii, input untouched and not shared.
 """
+import copy
 import json
 import math
 
 from . import common
-from .c15 import (TOL, attrs_of, bits, build, gen_structure, matmul, my_stdbase, snapshot, unbits, vecmat)
+from .c15 import (TOL, attrs_of, bits, build, gen_atom, gen_structure, matmul, my_stdbase, snapshot, unbits, vecmat)
 
 SURF = 1e-9
 
@@ -75,10 +76,11 @@ def parse_model(out):
     return {"mno": k, "centre": nc, "N": N, "nkept": nk, "kept": kept, "d": ds}
 
 
-def call(spec, radii, sphere=False):
+def call(spec, radii, sphere=False, S=None):
     from diffpy.structure.expansion.makeellipsoid import makeEllipsoid, makeSphere
 
-    S = build(spec)
+    if S is None:
+        S = build(spec)
     before = snapshot(S)
     try:
         R = makeSphere(S, radii[0]) if sphere else makeEllipsoid(S, *radii)
@@ -88,14 +90,15 @@ def call(spec, radii, sphere=False):
     return S, before, R, err
 
 
-def oracle(spec, radii, sphere=False):
-    """Statement of C18 on the real code for one input.  Returns (fails, info)."""
+def oracle(spec, radii, sphere=False, S=None):
+    """Statement of C18 on the real code for one input (`S`: an existing parent object whose current state `spec`
+    describes; default a fresh one).  Returns (fails, info)."""
     import numpy
 
     fails = []
     info = {}
     sabc = [radii[0], radii[1] if len(radii) > 1 else radii[0], radii[2] if len(radii) > 2 else radii[0]]
-    S, before, R, err = call(spec, radii, sphere)
+    S, before, R, err = call(spec, radii, sphere, S)
     if snapshot(S) != before:
         fails.append(("input-modified", "the input structure was modified"))
     k, amb, B0 = block_multiplier(spec, sabc)
@@ -108,6 +111,9 @@ def oracle(spec, radii, sphere=False):
     lat = spec["lattice"]
     a, b, c, al, be, ga = lat["abcABG"]
     parents = list(S)
+    if not hasattr(R, "lattice") or not hasattr(R, "__len__"):
+        fails.append(("result", "the result %r is not a structure" % (R,)))
+        return fails, info
     # the returned cell must be an integer multiple of the input cell (same multiplier on all axes)
     ra, rb, rc = R.lattice.abcABG()[:3]
     kk = int(round(ra / a))
@@ -261,6 +267,183 @@ def gen_case(rng, cap):
     return spec, radii
 
 
+def sparse_cases(rng, n):
+    """sparse templates: few atoms in a large cell, radii below half a cell (block multiplier 1), every atom at least
+    len(S) Angstrom from the middle of the block -- findCenter then reports 'no atom found' (-1) and the source centres
+    the cut on the last atom; the cut must still be centred on a returned atom and be non-empty"""
+    ident = [[1.0, 0.0, 0.0], [0.0, 1.0, 0.0], [0.0, 0.0, 1.0]]
+
+    def mk(cell, pos, kind="sparse"):
+        sp = {"lattice": {"kind": kind, "abcABG": cell, "baserot": ident}, "title": "sparse", "atoms": []}
+        for i, x in enumerate(pos):
+            at = gen_atom(rng, i, in_cell=True)
+            at["xyz"] = list(x)
+            sp["atoms"].append(at)
+        return sp
+
+    out = [
+        (mk([20.0, 20.0, 20.0, 90.0, 90.0, 90.0], [[0.35, 0.5, 0.5], [0.65, 0.5, 0.5]]), [3.5]),       # 3 A either side of the middle, 6 A apart
+        (mk([20.0, 20.0, 20.0, 90.0, 90.0, 90.0], [[0.1, 0.1, 0.1]]), [4.0]),                           # one atom near a corner
+        (mk([24.0, 18.0, 30.0, 90.0, 90.0, 90.0], [[0.1, 0.2, 0.3], [0.8, 0.7, 0.2], [0.3, 0.9, 0.9]]), [5.0, 4.0, 6.0]),
+        (mk([16.0, 16.0, 25.0, 90.0, 90.0, 120.0], [[0.2, 0.1, 0.1], [0.25, 0.15, 0.12]], "sparse-hex"), [3.0, 3.0, 4.0]),
+        (mk([20.0, 20.0, 20.0, 90.0, 90.0, 90.0], [[0.45, 0.5, 0.5], [0.1, 0.1, 0.1]]), [3.0]),        # one atom near the middle: ordinary choice
+    ]
+    tries = 0
+    while len(out) < n and tries < 50 * n:
+        tries += 1
+        kind = rng.choice(["cubic", "ortho", "mono", "hex"])
+        L = [round(rng.uniform(15.0, 30.0), 2) for _ in range(3)]
+        cell = {"cubic": [L[0], L[0], L[0], 90.0, 90.0, 90.0], "ortho": L + [90.0, 90.0, 90.0],
+                "mono": L + [90.0, round(rng.uniform(95, 115), 1), 90.0], "hex": [L[0], L[0], L[2], 90.0, 90.0, 120.0]}[kind]
+        N = rng.choice([1, 1, 2, 3])
+        pos = [[rng.random() for _ in range(3)] for _ in range(N)]
+        sp = mk(cell, pos, "sparse-" + kind)
+        nr = rng.choice([1, 2, 3])
+        radii = [round(rng.uniform(1.5, 0.45 * min(cell[:3])), 3) for _ in range(nr)]
+        sabc = [radii[0], radii[1] if nr > 1 else radii[0], radii[2] if nr > 2 else radii[0]]
+        k, amb, B0 = block_multiplier(sp, sabc)
+        mid = [0.5 * (B0[0][q] + B0[1][q] + B0[2][q]) for q in range(3)]
+        far = all(math.dist(vecmat(x, B0.tolist()), mid) >= N + 0.5 for x in pos)
+        if k == 1 and amb > 1e-7 and far:
+            out.append((sp, radii))
+    return out
+
+
+def edited_spec(rng, spec):
+    """the same parent after an in-place edit: same number of atoms, same cell; positions, element, occupancy, U values
+    changed, two atoms exchanged"""
+    sp = copy.deepcopy(spec)
+    ats = sp["atoms"]
+    swap = None
+    if len(ats) >= 2 and rng.random() < 0.7:
+        i, j = rng.sample(range(len(ats)), 2)
+        ats[i], ats[j] = ats[j], ats[i]
+        swap = (i, j)
+    for idx, at in enumerate(ats):
+        at["vid"] = idx
+        if rng.random() < 0.8:
+            at["xyz"] = [rng.random() for _ in range(3)]
+        at["element"] = rng.choice([e for e in ("C", "O", "Ni", "Cd", "Se", "Na", "Cl", "Ti") if e != at["element"]])
+        at["occupancy"] = round(rng.uniform(0.05, 0.95), 3)
+        if "U" in at:
+            at["U"] = [[1.5 * v for v in row] for row in at["U"]]
+        elif "Uiso" in at:
+            at["Uiso"] = round(at["Uiso"] * 1.7, 6)
+    return sp, swap
+
+
+def apply_inplace(S, spec1, swap):
+    import numpy
+
+    if swap:
+        i, j = swap
+        a, b = S[i], S[j]
+        list.__setitem__(S, i, b)
+        list.__setitem__(S, j, a)
+    for a, at in zip(S, spec1["atoms"]):
+        a.xyz[:] = at["xyz"]
+        a.element = at["element"]
+        a.occupancy = at["occupancy"]
+        a.label = at["label"]
+        a.vid = at["vid"]
+        if "U" in at:
+            a.U = numpy.array(at["U"], dtype=float)
+        elif "Uiso" in at:
+            a.Uisoequiv = at["Uiso"]
+    ref = build(spec1)
+    if len(ref) != len(S) or any(attrs_of(x) != attrs_of(y) or not numpy.array_equal(x.xyz, y.xyz) for x, y in zip(S, ref)):
+        raise RuntimeError("harness: in-place edit did not reach the described state")
+
+
+def oracle_sequence(spec0, spec1, swap, radii):
+    """cut; edit the SAME parent object in place; cut again with the same radii.  The second result must satisfy the
+    property w.r.t. the current parent and equal the cut of a fresh copy of it."""
+    import numpy
+
+    S = build(spec0)
+    f1, _ = oracle(spec0, radii, S=S)
+    apply_inplace(S, spec1, swap)
+    f2, i2 = oracle(spec1, radii, S=S)
+    f3, i3 = oracle(spec1, radii)
+    fails = list(f1) + [("sequence:" + k, "second cut of the same parent object after an in-place edit: " + m) for k, m in f2]
+    R2, R3 = i2.get("R"), i3.get("R")
+    if not f2 and not f3:
+        if i2.get("error") != i3.get("error"):
+            fails.append(("sequence:differs", "second cut of the edited parent %s, a fresh copy of it %s" % (
+                i2.get("error", "returns"), i3.get("error", "returns"))))
+        elif R2 is not None and R3 is not None:
+            same = len(R2) == len(R3) and R2.lattice.abcABG() == R3.lattice.abcABG() and all(
+                attrs_of(x) == attrs_of(y) and numpy.array_equal(x.xyz, y.xyz) for x, y in zip(R2, R3))
+            if not same:
+                fails.append(("sequence:differs", "second cut of the edited parent (%d atoms) differs from the cut of a fresh copy of it (%d atoms)" % (len(R2), len(R3))))
+    return fails
+
+
+def model_disagreements(spec, radii, mout, inf, stats):
+    """compare one model output line with what the implementation did (inf = info of the oracle).
+    Returns (disagreements, (nc_impl, kept) when the centre is a tie to be re-run, sample)."""
+    import numpy
+    from diffpy.structure.expansion.shapeutils import findCenter
+
+    M = parse_model(mout)
+    dis = []
+    smp = None
+    if "error" in inf:
+        stats["errors"][inf["error"]] = stats["errors"].get(inf["error"], 0) + 1
+        if M.get("error") != inf["error"]:
+            dis.append("implementation raised %s, model says %r" % (inf["error"], mout[:60]))
+    elif "R" in inf:
+        R = inf["R"]
+        stats["mno_hist"][inf["k_returned"]] = stats["mno_hist"].get(inf["k_returned"], 0) + 1
+        stats["oracle_surface"] += inf.get("near_surface", 0)
+        if "error" in M:
+            dis.append("model says %s, implementation returned %d atoms" % (M["error"], len(R)))
+        elif M["mno"] != inf["k_returned"]:
+            dis.append("block multiplier: model %d, implementation %d" % (M["mno"], inf["k_returned"]))
+        else:
+            kept, T = kept_indices(spec, M["mno"], R)
+            if kept is None:
+                dis.append("a returned atom is not an atom of supercell(S, %d)" % M["mno"])
+            else:
+                nc_impl = findCenter(T)
+                if not isinstance(nc_impl, (int, numpy.integer)) or isinstance(nc_impl, bool) or not (-len(T) <= nc_impl < len(T)):
+                    dis.append("findCenter returned %r for a block of %d atoms (documented: the index of the centre atom)" % (nc_impl, len(T)))
+                    nc_impl = M["centre"]
+                elif nc_impl < 0:
+                    nc_impl += len(T)
+                if nc_impl != M["centre"]:
+                    mid = numpy.dot([0.5, 0.5, 0.5], T.lattice.base)
+                    Ct = T.xyz_cartn
+                    d1 = float(numpy.linalg.norm(Ct[nc_impl] - mid))
+                    d2 = float(numpy.linalg.norm(Ct[M["centre"]] - mid))
+                    if abs(d1 - d2) <= 1e-9 * max(1.0, d1):
+                        stats["centre_ties"] += 1
+                        return [], (nc_impl, kept), None
+                    dis.append("centre atom: model %d (%.12g from the middle), implementation %d (%.12g)" % (M["centre"], d2, nc_impl, d1))
+                if not dis:
+                    dis += compare_kept(M, kept, stats, inf.get("exact", False))
+                    stats["exact_cases"] += 1 if inf.get("exact") else 0
+                smp = {"cell": spec["lattice"]["abcABG"], "natoms": len(spec["atoms"]), "radii": radii, "mno": M["mno"], "centre": M["centre"],
+                       "block": len(T), "kept": len(R), "nontrivial": 1 < len(R) < len(T)}
+    return dis, None, smp
+
+
+def new_stats():
+    return {"exact_cases": 0, "exact_surface_compared": 0, "surface_excluded": 0, "centre_ties": 0, "errors": {}, "mno_hist": {}, "oracle_surface": 0}
+
+
+def tie_one(spec, radii, sphere=False):
+    """model vs implementation for ONE case (used by replays of correspondence failures)"""
+    fails, inf = oracle(spec, radii, sphere)
+    stats = new_stats()
+    mout = common.driver([model_line(spec, radii)])[0]
+    dis, tie, _ = model_disagreements(spec, radii, mout, inf, stats)
+    if tie is not None:
+        M = parse_model(common.driver([model_line(spec, radii, "auto", tie[0])])[0])
+        dis = ["model: %s" % M["error"]] if "error" in M else compare_kept(M, tie[1], stats, False)
+    return fails, dis
+
+
 def run(ck):
     common.use_repo()
     import numpy
@@ -301,63 +484,38 @@ def run(ck):
         sp = {"lattice": {"kind": "textbook", "abcABG": cell, "baserot": [[1.0, 0.0, 0.0], [0.0, 1.0, 0.0], [0.0, 0.0, 1.0]]}, "title": "tb",
               "atoms": [{"element": "Ni", "xyz": x, "label": "Ni%d" % i, "occupancy": 1.0, "vid": i, "Uiso": 0.005} for i, x in enumerate(pos)]}
         cases.append((sp, radii, False))
+    for sp, radii in sparse_cases(rng, 14 if quick else 80):
+        cases.append((sp, radii, False))
     lines = [model_line(s, r) for s, r, _ in cases]
     outs = common.driver(lines)
-    stats = {"exact_cases": 0, "exact_surface_compared": 0, "surface_excluded": 0, "centre_ties": 0, "errors": {}, "mno_hist": {}, "oracle_surface": 0}
+    stats = new_stats()
     samples = []
     retry = []
     nontrivial = 0
     for ci, ((spec, radii, sphere), mout) in enumerate(zip(cases, outs)):
-        fails, inf = oracle(spec, radii, sphere)
-        ck.coverage["evaluations"] += 1
         replay = {"kind": "sphere" if sphere else "ellipsoid", "input": {"structure": spec, "radii": radii}}
-        for key, msg in fails:
-            ck.fail("cut:" + key, "%s(%s cell, %d atoms, radii %r): %s" % ("makeSphere" if sphere else "makeEllipsoid", spec["lattice"]["kind"],
-                                                                            len(spec["atoms"]), radii, msg), dict(replay, observed=msg))
-        M = parse_model(mout)
-        ck.coverage["traces_validated_against_impl"] += 1
-        dis = []
-        if "error" in inf:
-            stats["errors"][inf["error"]] = stats["errors"].get(inf["error"], 0) + 1
-            if M.get("error") != inf["error"]:
-                dis.append("implementation raised %s, model says %r" % (inf["error"], mout[:60]))
-        elif "R" in inf:
-            R = inf["R"]
-            stats["mno_hist"][inf["k_returned"]] = stats["mno_hist"].get(inf["k_returned"], 0) + 1
-            stats["oracle_surface"] += inf.get("near_surface", 0)
-            if "error" in M:
-                dis.append("model says %s, implementation returned %d atoms" % (M["error"], len(R)))
-            elif M["mno"] != inf["k_returned"]:
-                dis.append("block multiplier: model %d, implementation %d" % (M["mno"], inf["k_returned"]))
-            else:
-                kept, T = kept_indices(spec, M["mno"], R)
-                if kept is None:
-                    dis.append("a returned atom is not an atom of supercell(S, %d)" % M["mno"])
-                else:
-                    nc_impl = findCenter(T)
-                    if nc_impl < 0:
-                        nc_impl += len(T)
-                    if nc_impl != M["centre"]:
-                        mid = numpy.dot([0.5, 0.5, 0.5], T.lattice.base)
-                        Ct = T.xyz_cartn
-                        d1 = float(numpy.linalg.norm(Ct[nc_impl] - mid))
-                        d2 = float(numpy.linalg.norm(Ct[M["centre"]] - mid))
-                        if abs(d1 - d2) <= 1e-9 * max(1.0, d1):
-                            stats["centre_ties"] += 1
-                            retry.append((ci, nc_impl, kept))
-                            continue
-                        dis.append("centre atom: model %d (%.12g from the middle), implementation %d (%.12g)" % (M["centre"], d2, nc_impl, d1))
-                    if not dis:
-                        dis += compare_kept(M, kept, stats, inf.get("exact", False))
-                        stats["exact_cases"] += 1 if inf.get("exact") else 0
-                    if len(R) > 1 and len(R) < len(T):
-                        nontrivial += 1
-                    if len(samples) < 3 and len(R) > 2:
-                        samples.append({"cell": spec["lattice"]["abcABG"], "natoms": len(spec["atoms"]), "radii": radii, "mno": M["mno"],
-                                        "centre": M["centre"], "block": len(T), "kept": len(R)})
-        if dis and not fails:
-            ck.fail("tie:ell.cut", "model and implementation disagree on %s(radii %r): %s" % ("makeSphere" if sphere else "makeEllipsoid", radii, dis[0]),
-                    dict(replay, kind="correspondence", model=mout[:300], observed=dis, theorem="DS.Expand.makeEllipsoid"), no_failing_input=True)
+        try:
+            fails, inf = oracle(spec, radii, sphere)
+            ck.coverage["evaluations"] += 1
+            replay = {"kind": "sphere" if sphere else "ellipsoid", "input": {"structure": spec, "radii": radii}}
+            for key, msg in fails:
+                ck.fail("cut:" + key, "%s(%s cell, %d atoms, radii %r): %s" % ("makeSphere" if sphere else "makeEllipsoid", spec["lattice"]["kind"],
+                                                                                len(spec["atoms"]), radii, msg), dict(replay, observed=msg))
+            ck.coverage["traces_validated_against_impl"] += 1
+            dis, tie, smp = model_disagreements(spec, radii, mout, inf, stats)
+            if tie is not None:
+                retry.append((ci,) + tie)
+                continue
+            if smp:
+                nontrivial += 1 if smp["nontrivial"] else 0
+                if len(samples) < 3 and smp["kept"] > 2:
+                    samples.append(smp)
+            if dis and not fails:
+                ck.fail("tie:ell.cut", "model and implementation disagree on %s(radii %r): %s" % ("makeSphere" if sphere else "makeEllipsoid", radii, dis[0]),
+                        dict(replay, kind="correspondence", model=mout[:300], observed=dis, theorem="DS.Expand.makeEllipsoid"), no_failing_input=True)
+        except Exception as e:  # noqa: BLE001  whatever the implementation returns or raises is a verdict on this case
+            ck.fail("cut:unexpected:%s" % type(e).__name__, "%s(%d atoms, radii %r): evaluation of the result failed with %r" % (
+                "makeSphere" if sphere else "makeEllipsoid", len(spec["atoms"]), radii, e), dict(replay, observed=repr(e)))
     # centre ties: rerun the model with the implementation's choice among equidistant atoms
     if retry:
         lines2 = [model_line(cases[ci][0], cases[ci][1], "auto", nc) for ci, nc, _ in retry]
@@ -369,6 +527,21 @@ def run(ck):
                 ck.fail("tie:ell.cut", "model (centre forced to the implementation's among equidistant atoms) disagrees: %s" % dis[0],
                         {"kind": "correspondence", "input": {"structure": spec, "radii": radii}, "observed": dis, "theorem": "DS.Expand.cutWith"},
                         no_failing_input=True)
+    # several cuts from ONE parent object with in-place edits in between
+    nseq = 0
+    seq_src = [gen_case(rng, min(cap, 3)) for _ in range(20 if quick else 120)] + sparse_cases(rng, 8 if quick else 30)
+    for spec0, radii in seq_src:
+        spec1, swap = edited_spec(rng, spec0)
+        replay = {"kind": "sequence", "input": {"structure": spec0, "edited": spec1, "swap": swap, "radii": radii}}
+        nseq += 1
+        ck.coverage["evaluations"] += 1
+        try:
+            fails = oracle_sequence(spec0, spec1, swap, radii)
+        except Exception as e:  # noqa: BLE001
+            fails = [("unexpected:%s" % type(e).__name__, "cut / edit in place / cut again: evaluation failed with %r" % (e,))]
+        for key, msg in fails:
+            ck.fail("cut:" + key, "makeEllipsoid(%d atoms, radii %r): %s" % (len(spec0["atoms"]), radii, msg), dict(replay, observed=msg))
+    ck.notes.append("call sequences on one parent object (cut, edit atoms in place, cut again): %d" % nseq)
     # sphere = ellipsoid with equal radii (implementation side, exact)
     from diffpy.structure.expansion.makeellipsoid import makeEllipsoid, makeSphere
 
@@ -396,15 +569,19 @@ def run(ck):
             ws += [str(at["vid"])] + [bits(x) for x in at["xyz"]]
         fl.append(" ".join(ws))
     for s, o in zip(fc_specs, common.driver(fl)):
-        S = build(s)
-        got = findCenter(S)
         ck.coverage["traces_validated_against_impl"] += 1
-        if str(got) != o.strip():
+        try:
+            S = build(s)
+            got = findCenter(S)
             d = [float(S.lattice.dist(a.xyz, [0.5, 0.5, 0.5])) for a in S]
+        except Exception as e:  # noqa: BLE001
+            got, d = "raised %r" % (e,), []
+        if str(got) != o.strip():
             mi = int(o) if o.strip().lstrip("-").isdigit() else None
-            tie = mi is not None and mi >= 0 and got >= 0 and abs(d[mi] - d[got]) < 1e-9
+            isint = isinstance(got, (int, numpy.integer)) and not isinstance(got, bool)
+            tie = mi is not None and isint and 0 <= mi < len(d) and 0 <= got < len(d) and abs(d[mi] - d[got]) < 1e-9
             if not tie:
-                ck.fail("tie:ell.center", "findCenter: model %s, implementation %d (distances %r)" % (o, got, d),
+                ck.fail("tie:ell.center", "findCenter: model %s, implementation %r (distances %r)" % (o, got, d),
                         {"kind": "correspondence", "input": {"structure": s}, "theorem": "DS.Expand.findCenter"}, no_failing_input=True)
     # the Lean counter-example to the unconditional geometric reading of "no site twice"
     # (DS.Props.C18.nodup_positions_statement_false), replayed on the implementation: recorded, not a failure --
@@ -412,8 +589,11 @@ def run(ck):
     sp = {"lattice": {"kind": "textbook", "abcABG": [2.0, 2.0, 2.0, 90.0, 90.0, 90.0], "baserot": [[1.0, 0.0, 0.0], [0.0, 1.0, 0.0], [0.0, 0.0, 1.0]]},
           "title": "dup", "atoms": [{"element": "Ni", "xyz": [0.0, 0.0, 0.0], "label": "a", "occupancy": 1.0, "vid": 0},
                                     {"element": "Cu", "xyz": [1.0, 0.0, 0.0], "label": "b", "occupancy": 1.0, "vid": 1}]}
-    Rd = makeEllipsoid(build(sp), 1.5)
-    Cd = [tuple(round(float(x), 9) for x in c) for c in Rd.xyz_cartn]
+    try:
+        Rd = makeEllipsoid(build(sp), 1.5)
+        Cd = [tuple(round(float(x), 9) for x in c) for c in Rd.xyz_cartn]
+    except Exception as e:  # noqa: BLE001  informational only
+        Cd = [repr(e)]
     ck.notes.append("input with two lattice-equivalent atoms (x=0 and x=1): %d returned atoms on %d distinct positions (same behaviour as the model; "
                     "positions are pairwise different only for inputs without lattice-equivalent atoms)" % (len(Cd), len(set(Cd))))
     ck.coverage["distinct_nontrivial"] += nontrivial
@@ -476,6 +656,16 @@ def replay(path):
     if "structure" not in inp or "radii" not in inp:
         print("replay names no concrete input:", r.get("theorem"))
         return 1
+    if r.get("kind") == "sequence":
+        try:
+            fails = oracle_sequence(inp["structure"], inp["edited"], tuple(inp["swap"]) if inp.get("swap") else None, inp["radii"])
+        except Exception as e:  # noqa: BLE001
+            fails = [("unexpected:%s" % type(e).__name__, "evaluation failed with %r" % (e,))]
+        for key, msg in fails:
+            print("FAILS cut:%s %s" % (key, msg))
+        if not fails:
+            print("oracle holds on this sequence")
+        return 1 if fails else 0
     if r.get("kind") == "sphere-eq":
         import numpy
         from diffpy.structure.expansion.makeellipsoid import makeEllipsoid, makeSphere
@@ -485,7 +675,16 @@ def replay(path):
         same = len(A) == len(B) and all(numpy.array_equal(x.xyz, y.xyz) for x, y in zip(A, B))
         print("sphere == ellipsoid:", same)
         return 0 if same else 1
-    fails, _ = oracle(inp["structure"], inp["radii"], r.get("kind") == "sphere")
+    try:
+        if r.get("kind") == "correspondence":
+            fails, dis = tie_one(inp["structure"], inp["radii"])
+            for d_ in dis:
+                print("DISAGREES with the model: %s" % d_)
+            fails = list(fails) + [("tie", d_) for d_ in dis]
+        else:
+            fails, _ = oracle(inp["structure"], inp["radii"], r.get("kind") == "sphere")
+    except Exception as e:  # noqa: BLE001
+        fails = [("unexpected:%s" % type(e).__name__, "evaluation of the result failed with %r" % (e,))]
     for key, msg in fails:
         print("FAILS cut:%s %s" % (key, msg))
     if not fails:
